@@ -47,7 +47,15 @@ impl<'r> Data<'r> {
             if src.is_empty() {
                 None
             } else {
-                Some(parse_field(&mut src))
+                let result = parse_field(&mut src);
+
+                // An invalid field is not necessarily consumed. Stop after the first error
+                // rather than returning it forever.
+                if result.is_err() {
+                    src = &[];
+                }
+
+                Some(result)
             }
         })
     }
@@ -123,6 +131,20 @@ mod tests {
         ));
 
         Ok(())
+    }
+
+    #[test]
+    fn test_iter_with_an_invalid_field() {
+        let data = Data::new(b"NH:i:1\tN");
+        let mut iter = data.iter();
+        assert!(matches!(iter.next(), Some(Ok(_))));
+        assert!(matches!(iter.next(), Some(Err(_))));
+        assert!(iter.next().is_none());
+
+        let data = Data::new(b"ZB:B:z,1");
+        let mut iter = data.iter();
+        assert!(matches!(iter.next(), Some(Err(_))));
+        assert!(iter.next().is_none());
     }
 
     #[test]
